@@ -98,6 +98,8 @@ impl Datastore {
 
         // Get 'current' system time
         let sys_time = Utc::now();
+        #[cfg(feature = "verif-hooks")]
+        let sys_time = crate::verif_hooks::now(sys_time);
 
         if let Some(Ok(latest_known_time)) = poss_latest_known_time {
             // Make sure the sampled system time did not go back in time
